@@ -385,7 +385,10 @@ namespace GeographicLib {
     // >= 0, abs(sphi1) <= phi2.  However for safety's sake we enforce x <= y.
     if (y < x) swap(x, y);      // ensure that x <= y
     real q1 = fabs(_e2),
-      q2 = fabs(2 * _e / _e2m * (1 - x));
+      // For e2 < 0 the terms of DDatanhee2 decay like (e/sqrt(1-e2) * (1-x))^m
+      // but are computed with a loss of ((1+e)/sqrt(1-e2))^m to cancellation:
+      // the series is usable only if e*(1+e)/(1-e2) * (1-x) is small.
+      q2 = fabs((_f < 0 ? 1 + _e : 2) * _e / _e2m * (1 - x));
     return
       x <= 0 || !(fmin(q1, q2) < real(0.75)) ? DDatanhee0(x, y) :
       (q1 < q2 ? DDatanhee1(x, y) : DDatanhee2(x, y));
